@@ -402,8 +402,73 @@ fn chunks(limit: usize) -> Option<String> {
     None
 }
 
+// C01 bounded stand-in (floating-point algebra is outside both verifiers): the scalar planner's transform against the
+// definition X[k] = sum_j x[j] exp(-+2 pi i jk/n), decided per n on unit impulses and a two-impulse sum (linear, data
+// oblivious circuit), plus a dense vector against the naive O(n^2) sum for n <= 256; all four entry points.
+fn dft_one(n: usize, d: FftDirection, f: &dyn Fft<f64>, desc: &str) -> Option<String> {
+    if n == 0 { return None; }
+    let sign = if d == FftDirection::Forward { -1.0 } else { 1.0 };
+    let tw = |j: usize, k: usize| -> Complex<f64> { let idx = ((j as u128 * k as u128) % n as u128) as f64; let a = sign * 2.0 * std::f64::consts::PI * idx / n as f64; Complex::new(a.cos(), a.sin()) };
+    let tol = 1e-9 * ((n as f64).log2().max(1.0));
+    let run = |entry: usize, x: &[Complex<f64>]| -> Vec<Complex<f64>> {
+        let mut a = x.to_vec();
+        let mut b = vec![Complex::new(f64::NAN, f64::NAN); n];
+        match entry {
+            0 => { f.process(&mut a); a }
+            1 => { let mut s = vec![Complex::new(f64::NAN, 0.0); f.get_inplace_scratch_len()]; f.process_with_scratch(&mut a, &mut s); a }
+            2 => { let mut s = vec![Complex::new(f64::NAN, 0.0); f.get_outofplace_scratch_len()]; f.process_outofplace_with_scratch(&mut a, &mut b, &mut s); b }
+            _ => { let mut s = vec![Complex::new(f64::NAN, 0.0); f.get_immutable_scratch_len()]; f.process_immutable_with_scratch(&a, &mut b, &mut s); b }
+        }
+    };
+    let names = ["process", "process_with_scratch", "process_outofplace_with_scratch", "process_immutable_with_scratch"];
+    let mut impulses = vec![0usize, 1 % n, (n / 2 + 1) % n, n - 1, (n / 3) % n];
+    impulses.sort(); impulses.dedup();
+    for entry in 0..4 {
+        for &j in &impulses {
+            let mut x = vec![Complex::new(0.0, 0.0); n];
+            x[j] = Complex::new(1.0, 0.0);
+            let j2 = (j + n / 5 + 1) % n;
+            x[j2] = x[j2] + Complex::new(0.0, 2.0);
+            let out = run(entry, &x);
+            for k in 0..n {
+                let want = tw(j, k) + tw(j2, k) * Complex::new(0.0, 2.0);
+                let got = out[k];
+                if !((got - want).norm() <= tol * 3.0) {
+                    return Some(format!("{desc}.{}: impulses at {j} and {j2} (n = {n}, {:?}): output[{k}] = {:?}, DFT definition gives {:?}", names[entry], d, got, want));
+                }
+            }
+        }
+        if n <= 256 {
+            let x: Vec<Complex<f64>> = (0..n).map(|i| Complex::new(((i * 7 + 3) % 11) as f64 - 5.0, ((i * 5 + 1) % 13) as f64 * 0.25)).collect();
+            let out = run(entry, &x);
+            for k in 0..n {
+                let mut want = Complex::new(0.0, 0.0);
+                for j in 0..n { want = want + x[j] * tw(j, k); }
+                if !((out[k] - want).norm() <= 1e-9 * (n as f64) * 10.0) {
+                    return Some(format!("{desc}.{}: dense input (n = {n}, {:?}): output[{k}] = {:?}, naive DFT gives {:?}", names[entry], d, out[k], want));
+                }
+            }
+        }
+    }
+    None
+}
+fn dft_scalar(limit: usize, big: bool) -> Option<String> {
+    let mut lens: Vec<usize> = (1..limit).collect();
+    let mut extra: Vec<usize> = vec![625, 1000, 1024, 1296, 2048, 2187, 2401, 3125, 4096, 5120, 8192, 16384, 1009, 2003, 4099, 1234, 6561, 15625];
+    if big { extra.extend([32768, 65536, 131072, 40960, 70003, 65537, 100003, 30030, 78125, 59049, 117649, 50653]); }
+    lens.extend(extra);
+    for (i, &n) in lens.iter().enumerate() {
+        let d = if i % 2 == 0 { FftDirection::Forward } else { FftDirection::Inverse };
+        let desc = format!("FftPlannerScalar::<f64>.plan_fft({n}, {:?})", d);
+        let r = quiet(|| { let f = crate::FftPlannerScalar::<f64>::new().plan_fft(n, d); dft_one(n, d, &*f, &desc) });
+        match r { Err(e) => return Some(format!("{desc} panicked: {}", panic_msg(e))), Ok(Some(x)) => return Some(x), Ok(None) => {} }
+    }
+    None
+}
+
 pub fn search(which: &str) -> Option<String> {
     if simd::known(which) { return simd::search(which); }
+    if let Some(rest) = which.strip_prefix("dft_scalar:") { let big = rest.ends_with('+'); return dft_scalar(rest.trim_end_matches('+').parse().unwrap_or(128), big); }
     if let Some(rest) = which.strip_prefix("chunks:") { return chunks(rest.parse().unwrap_or(64)); }
     if which == "helpers_small" {
         for w in ["validate_and_iter", "fft_helper_inplace", "validate_and_iter_unroll2x", "fft_helper_inplace_unroll2x", "validate_and_zip", "fft_helper_immut",
@@ -444,7 +509,7 @@ pub fn search(which: &str) -> Option<String> {
     }
 }
 pub fn known(which: &str) -> bool {
-    simd::known(which) || which.starts_with("partition:") || which.starts_with("plan_scalar:") || which.starts_with("plan_history:") || which.starts_with("shapes:") || which.starts_with("chunks:") || which == "helpers_small" || which == "sqrt_limit"
+    simd::known(which) || which.starts_with("dft_scalar:") || which.starts_with("partition:") || which.starts_with("plan_scalar:") || which.starts_with("plan_history:") || which.starts_with("shapes:") || which.starts_with("chunks:") || which == "helpers_small" || which == "sqrt_limit"
         || matches!(which, "MixedRadix" | "MixedRadixSmall" | "GoodThomasAlgorithm" | "GoodThomasAlgorithmSmall" | "Radix4" | "Radix3" | "RadersAlgorithm" | "BluesteinsAlgorithm")
 }
 
